@@ -811,7 +811,7 @@ class World:
         self.stats[f"flush_state:{min(len(b.msgs), 9)}"] += 1
         if su is not None:
             if len(ss.view) != len(su):
-                self.viol(["C01"], "view-length-differs-after-flush", f"{ss.name} after {how}: view {len(ss.view)} cells, server {len(su)} messages; view={[c[0] for c in ss.view]} server={su}")
+                self.viol(self.view_props(ss), "view-length-differs-after-flush", f"{ss.name} after {how}: view {len(ss.view)} cells, server {len(su)} messages; view={[c[0] for c in ss.view]} server={su}")
             for i, (c, u) in enumerate(zip(ss.view, su)):
                 if c[0] is not None and c[0] != u:
                     self.viol(["C01"], "view-cell-differs-after-flush", f"{ss.name} after {how}: cell {i + 1} is UID {c[0]}, server {u}")
@@ -870,7 +870,7 @@ class World:
             b = self.boxes.get(ss.selected)
             su = self.server_uids(b.name) if b else None
             if su is not None and len(su) != len(ss.view):
-                self.viol(["C01"], "view-length-differs-after-idle", f"{ss.name}: view {len(ss.view)} server {len(su)}")
+                self.viol(self.view_props(ss), "view-length-differs-after-idle", f"{ss.name}: view {len(ss.view)} server {len(su)}")
             self.stats["flush_compares"] += 1
         return r
 
